@@ -180,7 +180,7 @@ def audio_case(draw, maxwin=30, maxB=12, maxmax=8, shapes=False):
         rec = draw(recording(maxwin, 2, pattern=pat))
         rec["shape"] = "many_events"
     elif shape == 1:
-        lead = draw(st.sampled_from([598, 600, 601, 599, 602, 600, 601, 35999, 36000]))
+        lead = draw(st.sampled_from([598, 600, 601, 599, 602, 600, 601] + ([35999, 36000] if shapes is True else [])))
         body = draw(tokpat(p, 24))
         rec = draw(recording(maxwin, 1, channels=(1, 2), pattern=st.just("0" * lead + body)))
         rec["sr"], rec["B"], rec["tail"] = 10, 1, [0, 0]
